@@ -248,6 +248,9 @@ func VerifC16Routing() {
 // no update is lost (interleavings at lock operations and at store transactions are explored).
 func VerifC16Concurrent() {
 	verif.MapOrderInsertion(true)
+	// goroutines may be switched before every lock acquisition (also uncontended ones) and at `go`
+	verif.PreemptAtLocks(true)
+	verif.PreemptAtGo(true)
 	ctx, cancel := context.WithCancel(context.Background())
 	defer cancel()
 	s, cleanup := c16Service(ctx)
